@@ -406,11 +406,6 @@ impl<const A: u8, const B: u8> MergeWithError<Rec<B>> for Rec<A> {
         if A & M_C04 != 0 {
             check_c04_merge(other.mask, &decode(merge_location));
         }
-        if A & M_C03 != 0 {
-            if unsafe { BROKE } {
-                assert!(sm | other.mask == all_reports_mask(), "C03: after a stop, a hand-over does not carry every report made so far");
-            }
-        }
         answer(Rec { mask: sm | other.mask }).1
     }
 }
